@@ -84,6 +84,85 @@ impl<S: RecvStream, B> BufRecvStream<S, B> {
         requires old(self).buf.wf(),
         ensures *final(self) == *old(self), r == (old(self).buf@.len() > 0),
 //@end
+// ---- the unframed readers (WebTransport payload after the stream header, C19): what they hand out is exactly the next
+// not-yet-consumed bytes of the transport stream, in order — nothing skipped, nothing repeated, buffered bytes first
+//@extract h3/src/stream.rs :: impl BufRecvStream<S, B> :: fn take_chunk
+//@external_body_if ASSUME_UNIT_frames
+//@tag C19 C06
+//@ret r
+//@sig
+        requires old(self).wf(),
+        ensures final(self).wf(), final(self).stream == old(self).stream, final(self).eos == old(self).eos,
+            match r {
+                Some(c) => c@.len() <= limit && (limit > 0 ==> c@.len() > 0) && final(self).consumed() == old(self).consumed() + c@.len()
+                    && c@ == old(self).stream.delivered().subrange(old(self).consumed(), final(self).consumed()), // [C19.raw.take_chunk]
+                None => old(self).buf@.len() == 0 && final(self).buf@.len() == 0,
+            },
+//@entry
+        proof {
+            let d = self.stream.delivered();
+            let b = self.buf@;
+            assert(forall|k: int| 0 <= k <= b.len() ==> #[trigger] b.take(k) =~= d.subrange(d.len() - b.len(), d.len() - b.len() + k));
+            assert(forall|k: int| 0 <= k <= b.len() ==> #[trigger] b.skip(k) =~= d.skip(d.len() - (b.len() - k)));
+        }
+//@end
+// `impl RecvStream for BufRecvStream` (h3/src/stream.rs): the same bodies, hosted as inherent methods so that the
+// representation invariant can be their precondition (a trait impl cannot add one); `Self::Buf` is `Bytes` there.
+//@extract h3/src/stream.rs :: impl RecvStream for BufRecvStream<S, B> :: fn poll_data
+//@external_body_if ASSUME_UNIT_frames
+//@rename raw_poll_data
+//@subst "Self::Buf" => "Bytes"
+//@tag C19 C06
+//@ret r
+//@qconv 1r
+//@sig
+        requires old(self).wf(),
+        ensures final(self).wf(), final(self).stream.stops() == old(self).stream.stops(),
+            old(self).stream.delivered().is_prefix_of(final(self).stream.delivered()),
+            old(self).eos ==> final(self).eos,
+            match r {
+                // buffered bytes (those that arrived together with the stream header) come out first, then the transport's chunks
+                Poll::Ready(Ok(Some(c))) => c@.len() > 0 && final(self).consumed() == old(self).consumed() + c@.len()
+                    && c@ == final(self).stream.delivered().subrange(old(self).consumed(), final(self).consumed())
+                    && (old(self).buf@.len() > 0 ==> final(self).stream == old(self).stream)
+                    && final(self).stream.pendings() == old(self).stream.pendings() && final(self).eos == old(self).eos, // [C19.raw.order]
+                // the end is reported only when nothing is buffered and the transport has finished
+                Poll::Ready(Ok(None)) => final(self).eos && final(self).stream.finished() && old(self).buf@.len() == 0 && final(self).buf@.len() == 0
+                    && final(self).consumed() == old(self).consumed(), // [C19.raw.end]
+                Poll::Ready(Err(_)) => final(self).buf@ == old(self).buf@ && final(self).consumed() == old(self).consumed() && final(self).eos == old(self).eos,
+                Poll::Pending => final(self).buf@ == old(self).buf@ && final(self).consumed() == old(self).consumed() && final(self).eos == old(self).eos
+                    && old(self).buf@.len() == 0 && final(self).stream.pendings() == old(self).stream.pendings() + 1, // [C06.raw.pending]
+            },
+//@entry
+        // (hints at entry, quantified over what the callees may return, so that no hint hangs on a statement of the body)
+        proof {
+            let d = self.stream.delivered();
+            let b = self.buf@;
+            assert forall|c: Seq<u8>, nb: Seq<u8>| b == #[trigger] (c + nb) implies
+                nb == d.skip(d.len() - nb.len()) && c == d.subrange(d.len() - b.len(), d.len() - b.len() + c.len()) by {
+                assert(nb =~= b.skip(c.len() as int));
+                assert(c =~= b.take(c.len() as int));
+                assert(b.take(c.len() as int) =~= d.subrange(d.len() - b.len(), d.len() - b.len() + c.len()));
+                assert(b.skip(c.len() as int) =~= d.skip(d.len() - nb.len()));
+            }
+            assert forall|x: Seq<u8>| true implies (#[trigger] (d + x)).subrange(d.len() as int, (d + x).len() as int) == x && x.take(x.len() as int) == x
+                && (d + x).skip((d + x).len() as int) == Seq::<u8>::empty() by {
+                assert((d + x).subrange(d.len() as int, (d + x).len() as int) =~= x);
+                assert(x.take(x.len() as int) =~= x);
+                assert((d + x).skip((d + x).len() as int) =~= Seq::<u8>::empty());
+            }
+            assert(d.skip(d.len() as int) =~= Seq::<u8>::empty());
+        }
+//@end
+//@extract h3/src/stream.rs :: impl RecvStream for BufRecvStream<S, B> :: fn stop_sending
+//@external_body_if ASSUME_UNIT_frames
+//@rename raw_stop_sending
+//@tag C07
+//@sig
+        ensures final(self).buf == old(self).buf, final(self).eos == old(self).eos,
+            final(self).stream.stops() == old(self).stream.stops().push(error_code), final(self).stream.delivered() == old(self).stream.delivered(),
+            final(self).stream.finished() == old(self).stream.finished(), final(self).stream.pendings() == old(self).stream.pendings(), // [C07.stop.forward]
+//@end
 }
 
 //@extract h3/src/frame.rs :: - :: struct FrameStream
@@ -152,6 +231,7 @@ impl<S: RecvStream, B> FrameStream<S, B> {
 //@tag C02 C03 C04 C06
 //@on R25
 //@attr #[verifier::exec_allows_no_decreases_clause]
+//@attr #[verifier::spinoff_prover]
 //@ret r
 //@qconv 1p 2r
 //@sig
